@@ -194,7 +194,8 @@ def run_history(rec, case):
     if rng.random() < 0.3:
         skw['max_http_buffer_size'] = rng.choice([8, 16, 40])
         rec.count('small_inbound_limit_histories')
-    sim = scen.make_sim(srv, server_kwargs=skw, policy='random',
+    sim = scen.make_sim(srv, real_ws_driver=bool(case.get('tws')) and
+                        not case.get('wst'), server_kwargs=skw, policy='random',
                         seed=rng.randrange(1 << 30),
                         yield_prob=rng.choice([0.0, 0.2, 0.5]),
                         ws_close_mode=rng.choice(['none', 'raise']))
@@ -479,6 +480,8 @@ def run_shard(spec):
             c['aio'] = 'H'
         for c in cases[2::4]:
             c['aio'] = 'N'     # ... and behind the tornado adapter
+        for c in cases[1::3]:
+            c['tws'] = True    # threaded server: the real simple_websocket driver
         for c in cases[1::4]:
             c['wst'] = True
         scen.run_cases(rec, cases, dispatch)
